@@ -907,7 +907,11 @@ impl LdapConnAsync {
                                 },
                             },
                             19 => (SearchItem::Referral(protoop), false),
-                            _ => panic!("unrecognized op id: {}", protoop.id),
+                            _ => {
+                                // not a message a server may send for a Search
+                                warn!("unrecognized op id for a search, op={}: {}", id, protoop.id);
+                                continue;
+                            },
                         };
                         if let Err(e) = tx.send((item, controls)) {
                             warn!("ldap search item send error, op={}: {:?}", id, e);
